@@ -34,10 +34,14 @@ def spellings_html(s, rnd):
             return "&#%d;" % o
         if mode == "hex":
             return "&#x%x;" % o
+        if mode == "dec0":          # leading zeros are legal in any number (HTML: "one or more digits")
+            return "&#%010d;" % o
+        if mode == "hex0":
+            return "&#x%09X;" % o
         if mode == "named":
             return {"<": "&lt;", ">": "&gt;", "&": "&amp;", '"': "&quot;", "'": "&apos;", "\xa0": "&nbsp;"}.get(ch, "&#%d;" % o)
     out = {}
-    for mode in ("raw", "dec", "hex", "named"):
+    for mode in ("raw", "dec", "hex", "named", "dec0", "hex0"):
         t = "".join(esc(c, mode) for c in s)
         out[mode] = t
     return out
